@@ -15,6 +15,13 @@ def ops07 : List (String × Handler) := [
       | none => "none"
       | some m => showRat (dot g x - m)
     pure s!"{showBool (inBox lb ub x)} {showRat minp} {gap}"),
+  -- poistan <n> <A'> <base'> <w> <b> <x> <x'>  ->  minp(x)  g(x).x - g(x).x'   (tangent term of poisson_shifted_gap_bound)
+  ("poistan", do
+    let n ← nat; let a ← mat; let base ← vec; let w ← vec; let b ← vec; let x ← vec; let x' ← vec
+    let p := totalCapture a base x
+    let minp := p.foldl (fun m v => if v ≤ m then v else m) (p.headD 0)
+    let g := poissonGrad n a w b p
+    pure s!"{showRat minp} {showRat (dot g x - dot g x')}"),
   -- excdoc <A'> <base'> <b> <x>  -> documented objective max |e(b) - e(p)|
   ("excdoc", do
     let a ← mat; let base ← vec; let b ← vec; let x ← vec
